@@ -265,6 +265,10 @@ class EquationParser(object):
         """
         for var, eqn in self.Endogenous:
             rhs = self.CleanupRightHandSide(eqn)
+            if var in self.InitialConditions:
+                # The variable has its own value at k=0, which differs from the variable it is
+                # equal to in later periods; it cannot be replaced by that variable.
+                continue
             if rhs in self.AllEquations:
                 # We have a case where VAR1 = VAR2.  Replace occurrences of VAR1 by VAR2 in all equations.
                 # BUT: Must break loops like:  (x=y), (y=x), since they will not converge
